@@ -125,6 +125,7 @@ type Contracts struct {
 	Callers  []*CallersRule
 	MapRanges []*CallersRule
 	SweepMethods []*CallersRule // "sweep_methods Name ...": every repository method of that name is swept, contract or not
+	ImplMethods  []*CallersRule // "impl_methods (Iface).Method ...": every repository implementation is verified against the interface contract
 	SpawnedWrites []*CallersRule
 	pureMemo map[*ssa.Function]int
 	Defines  map[string]string // $NAME macros (textual)
@@ -136,7 +137,7 @@ var tagRe = regexp.MustCompile(`\s*\[((?:C\d+)(?:\s*,\s*C\d+)*)\]\s*$`)
 
 var clauseKeywords = map[string]bool{
 	"func": true, "requires": true, "ensures": true, "modifies": true, "pure": true, "trusted": true,
-	"loop": true, "site": true, "ghost": true, "nonnil": true, "guarded_by": true, "entry": true, "state_fields": true, "callers": true, "map_ranges": true, "sweep_methods": true, "spawned_writes": true, "nilable": true, "fields_copied": true, "fields_decoded": true,
+	"loop": true, "site": true, "ghost": true, "nonnil": true, "guarded_by": true, "entry": true, "state_fields": true, "callers": true, "map_ranges": true, "sweep_methods": true, "impl_methods": true, "spawned_writes": true, "nilable": true, "fields_copied": true, "fields_decoded": true,
 	"sweep": true, "package": true, "axiom": true, "allow": true, "witness": true, "nosafety": true, "spawns": true, "nopanic": true,
 	"deferrule": true, "skipfield": true, "preserves": true, "typeinv": true, "updates": true, "deterministic": true, "init": true, "nosite": true, "blocks": true, "define": true, "fnspec": true, "result": true, "param": true, "implements": true,
 }
@@ -665,6 +666,11 @@ func (cs *Contracts) parseFile(path, pkg string, external bool) error {
 				return fail("sweep_methods <method name> ...")
 			}
 			cs.SweepMethods = append(cs.SweepMethods, &CallersRule{Callees: strings.Fields(rest), Tags: tags, File: path, Line: rc.line})
+		case "impl_methods":
+			if len(strings.Fields(rest)) == 0 {
+				return fail("impl_methods (Iface).Method ...")
+			}
+			cs.ImplMethods = append(cs.ImplMethods, &CallersRule{Callees: strings.Fields(rest), Allowed: []string{pkg}, Tags: tags, File: path, Line: rc.line})
 		case "map_ranges":
 			_, tail, ok := strings.Cut(rest, ":")
 			if !ok || len(strings.Fields(tail)) == 0 {
